@@ -240,7 +240,7 @@ func rerunDefaultPaths(ctx *Ctx) {
 }
 
 func checkC02(ctx *Ctx) {
-	ctx.Res.Rule = "chain workflows (1-3 source files, 1-3 levels, optional second output per level, optional fan-out branch); a random subset of task outputs pre-created with garbage bytes; run, then re-run in place; non-trivial = at least one pre-existing output; distinct by (chain, subset). Checks: stat (inode, mtime-ns, size) and bytes of pre-existing files, command trace (exactly the tasks none of whose outputs pre-exist), downstream content computed from the bytes on disk, and per task the model's execution count."
+	ctx.Res.Rule = "chain workflows (1-3 source files, 1-3 levels, optional second output per level, optional fan-out branch); a random subset of task outputs pre-created with garbage bytes; run, then re-run in place; non-trivial = at least one pre-existing output; distinct by (chain, subset). Checks: stat (inode, mtime-ns, size) and bytes of pre-existing files, command trace (exactly the tasks none of whose outputs pre-exist), downstream content computed from the bytes on disk, and per task the model's execution count; fixed cases: existing outputs of zero bytes, many skipped tasks of a process with several cores per task, outputs with ../, a re-run over default output paths."
 	r := NewRng(ctx.Seed)
 	n := 25
 	if ctx.Thorough() {
